@@ -77,6 +77,14 @@ class SymArr:
         return list(self.data)
 
     def __getitem__(self, k):
+        if isinstance(k, tuple) and len(k) == 2 and any(isinstance(e, slice) for e in k):
+            # 2-D basic indexing a[rows, cols] with slices / ints (numpy semantics on nested lists)
+            rk, ck = k
+            rows = self.data[rk] if isinstance(rk, slice) else [self.data[rk]]
+            cut = [(list(r)[ck] if isinstance(ck, slice) else list(r)[ck]) for r in rows]
+            if not isinstance(rk, slice):
+                cut = cut[0]
+            return SymArr(cut) if isinstance(cut, list) else cut
         if isinstance(k, (list, tuple, _np.ndarray)):
             return SymArr([self.data[int(j)] for j in k])
         r = self.data[k]
